@@ -42,6 +42,14 @@ def populate(shape, variant):
             n["tail"] = edge[(i + (2 if variant == 6 else 1)) % 5]
             n["attrs"] = [["k", edge[i % 5]], ["", "v"]]
             n["extras"] = [["p:e", edge[(i + 1) % 5]]]
+    if variant == 9 and len(nodes) > 1:
+        # every parent prefix bound the same way in the child, plus one prefix of the child's own
+        nodes[-1]["ns"] = [["q", "urn:u3"]]
+        if len(nodes) > 2:
+            nodes[1]["ns"] = [["r", "urn:u4"]]
+    if variant == 10 and len(nodes) > 1:
+        # a listed child whose parent link was cleared (children assigned through the setter leave links alone)
+        g["post"] = [["clear_parent_link", len(nodes) - 1]]
     if variant == 8:
         # values that are not strings (the model stores what it is given; a copy must hold the very same values)
         for i, n in enumerate(nodes):
@@ -70,6 +78,8 @@ def build(g):
             nodes[op[1]].set_nsmap(dict(op[2]), False)
         elif op[0] == "unregister":
             Node.delete_node_instance(nodes[op[1]].id, children=False)
+        elif op[0] == "clear_parent_link":
+            nodes[op[1]].parent = None
     return t
 
 
@@ -209,9 +219,37 @@ def scale_items():
     return out
 
 
+def failed_copy_first():
+    """a copy that fails (a chain deeper than the interpreter's recursion limit) before the cases of a work item: whatever it
+    leaves behind must not reach the ordinary copies that follow"""
+    import sys
+    core.reset_store()
+    root = Node("a")
+    cur = root
+    for _ in range(sys.getrecursionlimit() + 200):
+        c = Node("a")
+        cur.add_child(c)
+        cur = c
+    try:
+        root.copy()
+    except RecursionError:
+        pass
+    except Exception:  # noqa
+        pass
+    # unlink iteratively so that dropping the chain does not recurse either
+    cur = root
+    while cur.children:
+        nxt = cur.children[0]
+        cur.children = []
+        cur = nxt
+    core.reset_store()
+
+
 def work(item):
     g, cpath = item[0], item[1]
     acc = core.Acc()
+    if not cpath:
+        failed_copy_first()
     n = check_copy(g, cpath, acc, light=(len(item) > 2))
     acc.count("checks", n)
     if not cpath:
@@ -229,8 +267,8 @@ def explore(tier):
     maxn = 5 if tier == "quick" else 7
     items = []
     for s in gtree.shapes_upto(maxn):
-        for variant in (0, 1, 2, 3, 4, 5, 6, 7, 8):
-            if variant in (3, 4, 5) and gtree.gsize(s) < 2:
+        for variant in (0, 1, 2, 3, 4, 5, 6, 7, 8, 9, 10):
+            if variant in (3, 4, 5, 9, 10) and gtree.gsize(s) < 2:
                 continue
             g = populate(s, variant)
             for path, _ in gtree.walk(g):
